@@ -1,8 +1,10 @@
 import StoneVerif.Model.Rt.Spec
 import StoneVerif.Model.Rt.Ir
+import StoneVerif.Model.Rt.SpecC08
+import StoneVerif.Lemmas.RtValidate
 /-! Property theorems for C08 (generated classes accept a value exactly when it satisfies the declared type). -/
 namespace StoneVerif.C08
-open StoneVerif.Rt
+open StoneVerif.Rt StoneVerif.Rt.V8
 
 /-- The runtime validators and the compile-time types use the same integer and float limits, and they
 are the limits of the declared widths. (Over the translator's output: editing `default_maximum` of
@@ -12,5 +14,30 @@ theorem bounds_tables :
     Tables.rtIntBounds = [("Int32", (-(2:Int)^31, 2^31 - 1)), ("UInt32", (0, 2^32 - 1)),
                           ("Int64", (-(2:Int)^63, 2^63 - 1)), ("UInt64", (0, 2^64 - 1))] := by
   decide
+
+/-! ## 1–3. `validate`: refusal is the validation error; acceptance is `satB`; the result is `normOf` -/
+
+/-- Refusal by a validator is always `ValidationError` — whatever the type, whatever the value. -/
+theorem validate_only_verr (E : Ext) (env : Env) (t : PTy) (v : PyVal) :
+    ∀ e, validate E env t v ≠ .error (.crash e) := by
+  intro e h
+  rcases validate_spec E env t v with ⟨_, h2⟩ | ⟨_, h2⟩
+  · rw [h] at h2; cases h2
+  · rw [h] at h2; simp at h2
+
+/-- A validator accepts a value exactly when the value satisfies the declared type. -/
+theorem validate_iff_sat (E : Ext) (env : Env) (t : PTy) (v : PyVal) :
+    (∃ v', validate E env t v = .ok v') ↔ satB E env t v = true := by
+  rcases validate_spec E env t v with ⟨h1, h2⟩ | ⟨h1, h2⟩
+  · simp [h1, h2]
+  · obtain ⟨s, hs⟩ := h2.exists
+    simp [h1, hs]
+
+/-- What an accepting validator returns is the documented normalisation of the value. -/
+theorem validate_norm {E : Ext} {env : Env} {t : PTy} {v v' : PyVal} (h : validate E env t v = .ok v') :
+    v' = normOf E t v := by
+  rcases validate_spec E env t v with ⟨_, h2⟩ | ⟨_, h2⟩
+  · rw [h] at h2; cases h2; rfl
+  · rw [h] at h2; simp at h2
 
 end StoneVerif.C08
